@@ -65,6 +65,8 @@ func catalogue(r *vh.Run, rng *vh.RNG) []job {
 	jobs = append(jobs, bootstrapJobs(r, w)...)
 	jobs = append(jobs, hitRunJobs(w)...)
 	jobs = append(jobs, fakeStateJob(wl))
+	jobs = append(jobs, headerStateJob(w))
+	jobs = append(jobs, frontRunJobs(w)...)
 	jobs = append(jobs, relayJobs(w)...)
 	jobs = append(jobs, mixedJobs(w, wl, rng)...)
 	// a second network in both tiers: v2 allowed at 3, required at 5
@@ -555,6 +557,49 @@ func crashJobs(w *world) []job {
 		}})
 	}
 	return jobs
+}
+
+// headerStateJob: the victim holds a valid but lighter fork F (ingested through AddBlocks: base
+// below the require height, tip at it) — stored, never applied, so the manager's State(F tip) is a
+// header-level state (work, timestamps; the element accumulator is the fork point's). The peer
+// serves F followed by blocks that commit to THAT state (it learns it by feeding F to a manager of
+// its own), enough of them to outweigh the victim's chain; with request size 7 the second request
+// starts exactly at F's tip. The checkpoint the victim downloads for that request is bound to F's
+// tip by its commitment, so the running state is the true consensus state and the first made-up
+// block fails ValidateBlock. (A worker that started from the manager's own State(base) would
+// accept them all, and they would be applied unchecked on the reorg.)
+func headerStateJob(w *world) job {
+	rc := &roundCase{name: "blocks-committing-to-header-level-state", tags: []string{"attack:header-level-state-of-unapplied-fork", "rpc:SendV2Blocks", "regime:v1-then-v2", "requests:4"},
+		w: w, tie: true, mustBan: true, sendCap: 7}
+	return job{name: rc.name, quick: true, run: func(ip string) *vh.Case {
+		nt := w.nt
+		main := w.main
+		const fp = 3
+		req := int(nt.N.HardforkV2.RequireHeight)
+		f := main.Fork(fp)
+		f.MineN(req-fp, 2*time.Second, 0xA1) // F: heights fp+1 .. require, lighter than main
+		// what a node on main that ingested F holds as State(F tip)
+		own := nt.ChainFrom(main.Blocks)
+		if err := own.CM.AddBlocks(f.Blocks[fp:]); err != nil {
+			panic(err)
+		}
+		hs, ok := own.CM.State(f.Blocks[len(f.Blocks)-1].ID())
+		if !ok {
+			panic("no state for the fork tip")
+		}
+		v := netx.ViewOf(f)
+		cs := hs
+		for i := 0; i < 22; i++ {
+			b := nt.BuildOn(cs, netx.MineOpts{Addr: types.Address{0xA2, byte(i)}})
+			cs = applyOn(nt, cs, b)
+			v.Blocks = append(v.Blocks, b)
+			v.States = append(v.States, cs)
+		}
+		rc.view = v
+		rc.victim = main.Blocks
+		rc.side = f.Blocks[fp:]
+		return rc.run(ip)
+	}}
 }
 
 // fakeStateJob: "instant sync trusts a peer-supplied state that is only bound by the block
